@@ -32,10 +32,13 @@ def obsByebye (cfg : Cfg) (target : Str) (time : Int) (m : Msg) : ObsMsg :=
   { time := time, dest := target, startLine := notifyLine, st := m.st, usn := m.usn,
     nts := ntsByebye, location := cfg.location, heard := hearByebye cfg m }
 
-def runSearch (k : Consts) (cfg : Cfg) (t : DevTree) (i : SearchIn) : SearchObs :=
+def runSearch (k : Consts) (t : DevTree) (i : SearchIn) : SearchObs :=
   { time := i.time, requester := i.requester, req := i.req,
-    raised := (answer k t i.time i.req i.sel).isNone,
-    sends := ((answer k t i.time i.req i.sel).getD []).map (obsResponse cfg i.requester) }
+    raised := (answer k t i.time i.req i.sel).isNone }
+
+/-- the datagrams one request causes -/
+def sendsOf (k : Consts) (cfg : Cfg) (t : DevTree) (i : SearchIn) : List ObsMsg :=
+  ((answer k t i.time i.req i.sel).getD []).map (obsResponse cfg i.requester)
 
 /-- number of announcements in `[start, upto]`: one at `start`, then one per interval -/
 def ticks (k : Consts) (a : AnnIn) : Nat :=
@@ -44,7 +47,8 @@ def ticks (k : Consts) (a : AnnIn) : Nat :=
 def runCase (k : Consts) (cfg : Cfg) (target : Str) (t : DevTree) (searches : List SearchIn)
     (ann : Option AnnIn) : CaseObs :=
   { tree := t, alwaysRoot := k.alwaysRoot, location := cfg.location, target := target,
-    searches := searches.map (runSearch k cfg t),
+    searches := searches.map (runSearch k t),
+    responses := searches.flatMap (sendsOf k cfg t),   -- grouped by request; the judge ignores the order
     alives := match ann with
       | none => []
       | some a => (alives k t (ticks k a)).map fun s => obsAlive cfg target { s with time := a.start + s.time },
@@ -52,6 +56,8 @@ def runCase (k : Consts) (cfg : Cfg) (target : Str) (t : DevTree) (searches : Li
       | some a => if a.stopped then some a.upto else none
       | none => none,
     annUpto := ann.map (·.upto),
+    annStart := ann.map (·.start),
+    maxAgeMs := maxAgeOf cfg.cacheControl,
     byebyes := match ann with
       | some a => if a.stopped then (byebyes t).map (obsByebye cfg target a.upto) else []
       | none => [] }
